@@ -257,11 +257,12 @@ def sup_line(o):
                                        _b(s.strip_ansi), _env(s.environment))
 
 
-def capture_tokens(o, fn, dirs):
-    """run fn() (which makes `o` read its file) recording the parser; -> (fn's result or exception, model tokens or None)"""
+def capture_tokens(o, fn, dirs, pre_env=None):
+    """run fn() (which makes `o` read its file) recording the parser; -> (fn's result or exception, model tokens or None).
+    pre_env: the ENV_ names the read starts with (default: whatever `o` holds now)"""
     st = _classes()
     so = st['so']
-    pre_env = dict(o.environ_expansions)
+    pre_env = dict(o.environ_expansions) if pre_env is None else dict(pre_env)
     st['RecParser'].instances.clear()
     o.include_done = False
     so.UnhosedConfigParser = st['RecParser']
